@@ -11,7 +11,8 @@ for id in $ids; do
   git -C /repo worktree remove --force $wt >/dev/null 2>&1
   # prefer HEAD when the patch still applies there
   git -C /repo worktree add -q --detach $wt HEAD || exit 2
-  if ! git -C $wt apply --check /verif/seeded/$id/patch.diff 2>/dev/null; then git -C $wt checkout -q --detach $base; fi
+  forced=$(/venv/bin/python -c "import json;print(json.load(open('$meta')).get('validate_at_commit',''))")
+  if [ -n "$forced" ]; then git -C $wt checkout -q --detach $forced; elif ! git -C $wt apply --check /verif/seeded/$id/patch.diff 2>/dev/null; then git -C $wt checkout -q --detach $base; fi
   git -C $wt apply /verif/seeded/$id/patch.diff || { echo "$id: patch does not apply"; git -C /repo worktree remove --force $wt; continue; }
   res=""
   for c in $checks; do
